@@ -108,6 +108,8 @@ func runC11(ctx *core.Ctx) {
 	truncGuard(ctx, "R5", false)
 	expectedIDReadOnly(ctx, "R7")
 	indexNilMeansWritten(ctx, "R8")
+	ctx.Rule("R9", "nothing shared is removed: every os.Remove reachable from Put removes a name its own function opened successfully before (C12.P4); an output file is content-addressed and may belong to other entries", 2)
+	whoRemoves(ctx, "R9")
 	// R2 summary
 	if cpf := ctx.Need("R2", "cache", "(*Cache).copyFile"); cpf != nil {
 		g := graph(p, cpf)
@@ -117,6 +119,14 @@ func runC11(ctx *core.Ctx) {
 			fm := fileMethodCalls(g, f)
 			ok := len(fm["Write"]) == 1 && len(g.Calls("bytes.Equal")) == 1 && hasFact(g.FactsAtInstr(fm["Write"][0]), true, isVal(g.Calls("bytes.Equal")[0]))
 			ctx.Check(ok, "R2", "cache.copyFile#commit-byte", opens[0].Pos(), "the single direct write to the data file happens only after the digest matched")
+			// the file reaches its full size through that byte only: it is never sized by Truncate
+			sized := false
+			for _, t := range fm["Truncate"] {
+				if z, isK := ssax.ConstInt(t.Call.Args[1]); !isK || z != 0 {
+					sized = true
+				}
+			}
+			ctx.Check(!sized, "R2", "cache.copyFile#size-by-last-byte", opens[0].Pos(), "the data file is only ever truncated to 0: a Truncate to the expected size makes a half-written file pass the reader's size gate")
 		} else {
 			ctx.Bad("R2", "cache.copyFile#commit-byte", cpf.Pos(), "open of the data file not found")
 		}
